@@ -399,9 +399,9 @@ func ob0() *SuObject { return &SuObject{} }
 
 // C36 two steps (thorough): two key-taking mutators in sequence from a small state.
 //
-//symgo:harness prop=C36 tier=thorough tshards=16 ttimeout=1700 bounds=state:0..1_list_members+0..1_named_member;two_operations_from_{Add,Insert,Set,Delete,Erase,PopFirst}_with_enumerated_keys;values_symbolic_in_0..5
+//symgo:harness prop=C36 tier=thorough tshards=16 ttimeout=1700 bounds=state:0..2_list_members+0..1_named_member;two_operations_from_{Add,Insert,Set,Delete,Erase,PopFirst}_with_enumerated_keys;values_symbolic_in_0..5
 func VerifC36TwoSteps() {
-	ob, m := vobBuild(ob0(), 1, 1)
+	ob, m := vobBuild(ob0(), 2, 1)
 	ops := []int{vopAdd, vopInsert, vopSet, vopDelete, vopErase, vopPopFirst}
 	vobStep("a.", ops[rt.Pick("op1", len(ops))], ob, m)
 	vobStep("b.", ops[rt.Pick("op2", len(ops))], ob, m)
